@@ -32,6 +32,7 @@ type bScalar struct{ t *Term } // Int- or Bool-sorted term
 type bPtr struct {
 	obj  int
 	path string
+	nilv *Term // non-nil: the pointer is nil exactly when this boolean holds (contracts with `nilable`)
 }
 
 // bStruct is a struct value.  Missing fields are materialised lazily: symbolically (named
@@ -40,12 +41,14 @@ type bStruct struct {
 	typ types.Type
 	f   map[string]bVal
 	sym string
+	ver int // bumped by every store into the struct (or below it): the contents' identity is (sym, ver)
 }
 
 // bSlice: a slice value over the array object arr.
 type bSlice struct {
 	arr int
 	len *Term
+	cap *Term // nil: unknown (not tracked)
 	nil_ bool
 }
 
@@ -75,6 +78,7 @@ type bObject struct {
 	root bVal       // for non-array objects: the contents (bStruct or any value for *T with scalar T)
 	elems map[string]bVal
 	sym  string
+	ver  int // bumped by every store into an array object
 }
 
 func (o *bObject) clone() *bObject {
@@ -92,7 +96,7 @@ func (o *bObject) clone() *bObject {
 func cloneVal(v bVal) bVal {
 	switch x := v.(type) {
 	case *bStruct:
-		n := &bStruct{typ: x.typ, sym: x.sym, f: make(map[string]bVal, len(x.f))}
+		n := &bStruct{typ: x.typ, sym: x.sym, ver: x.ver, f: make(map[string]bVal, len(x.f))}
 		for k, f := range x.f {
 			n.f[k] = cloneVal(f)
 		}
@@ -159,6 +163,7 @@ type bState struct {
 	nextID int
 	consts map[string]*Term // scalar variables pinned to constants by the path
 	calls  []string         // inlining stack (recursion guard)
+	branch map[string]bool  // path entries that are branch conditions (the others are facts: contract postconditions, ranges)
 }
 
 func (s *bState) clone() *bState {
@@ -190,7 +195,32 @@ func (s *bState) clone() *bState {
 	}
 	n.path = append([]*Term(nil), s.path...)
 	n.calls = append([]string(nil), s.calls...)
+	if s.branch != nil {
+		n.branch = make(map[string]bool, len(s.branch))
+		for k, v := range s.branch {
+			n.branch[k] = v
+		}
+	}
 	return n
+}
+
+// assumeBranch records a branch condition (as opposed to a fact).
+func (s *bState) assumeBranch(t *Term) {
+	if s.branch == nil {
+		s.branch = map[string]bool{}
+	}
+	var mark func(t *Term)
+	mark = func(t *Term) {
+		if t.Op == "and" {
+			for _, a := range t.Args {
+				mark(a)
+			}
+			return
+		}
+		s.branch[t.Key()] = true
+	}
+	mark(t)
+	s.assume(t)
 }
 
 func (s *bState) assume(t *Term) {
